@@ -303,15 +303,22 @@ def cases(tier, seed):
     # G. names
     for i, nm in enumerate(NAMES[1:]):
         out.append(_case("EOF", "da2", name=nm, dseed=700 + i))
+        out.append(_case("EOF", "dataset", name=nm, dseed=740 + i))
         out.append(_case("MCA", "dataset" if i % 2 else "list", name=nm, dseed=720 + i))
     n_all = len(CLASSES)
     for i, c in enumerate(out):
-        # quick: sections other than A and C run three of the six round trips (alternating halves)
-        c["combos"] = "all" if (not quick or i < n_all or c["attr"] not in ("plain",)) else ("a", "b")[i % 2]
-    nrand = 80 if quick else 3000
+        # quick: section A and the attribute catalogue placed on the data run all six round trips, the other
+        # sections three of the six (alternating halves), lazy models two
+        if not quick or i < n_all or (c["attr"] not in ("plain",) and c["where"] == "data"):
+            c["combos"] = "all"
+        elif c["lazy"] == "lazy_pre":
+            c["combos"] = ("c", "d")[i % 2]
+        else:
+            c["combos"] = ("a", "b")[i % 2]
+    nrand = 70 if quick else 2400
     for j in range(nrand):
         c = _draw(gen.rng_for(seed, 13, j))
-        c["combos"] = ("a", "b")[j % 2] if quick else "all"
+        c["combos"] = (("c", "d") if c["lazy"] == "lazy_pre" else ("a", "b"))[j % 2] if quick else "all"
         out.append(c)
     return out
 
@@ -787,6 +794,10 @@ def _combos(case):
         return allc
     if sel == "a":
         return [("identity", False), ("nc", True), ("json", False)]
+    if sel == "c":
+        return [("identity", False), ("nc", True)]
+    if sel == "d":
+        return [("json", True), ("nc", False)]
     return [("identity", True), ("nc", False), ("json", True)]
 
 
@@ -809,8 +820,12 @@ def _fit(case, fields, dim):
         kw["compute"] = False
         if rot is not None:
             rot["compute"] = False
-    if case["lazy"] != "eager" and rot is not None:
-        rot["max_iter"] = 6  # dask input: the rotation iterations are unrolled into / run through the graph
+    if case["lazy"] in ("lazy_pre", "lazy_post") and rot is not None:
+        rot["max_iter"] = 6  # compute=False unrolls max_iter rotation iterations into the dask graph (no convergence test)
+    if case["lazy"] == "dask_eager" and rot is not None:
+        # dask input with compute=True evaluates the graph in every iteration (max_iter=1000: > 15 min); a loose
+        # tolerance converges in a few iterations instead of ending in xeofs's "did not converge" refusal
+        rot.update(max_iter=40, rtol=0.3)
     if case["lazy"] != "eager" and bn == "SparsePCA":
         kw["max_iter"] = 3  # dask input: every iteration adds a dask SVD to the graph (500 of them take > 20 min to build)
     return zoo.fit(name, fields, dim, kw=kw, rot_kw=rot, base_name=bn if rot is not None else None)
